@@ -75,6 +75,17 @@ CLAIMED = {
             "outputs; the command line on a pipe that stays open and with a reader that closes early. Partial: input consumption and "
             "time per output are observed, not proved (the model has no shared input stream).",
             "7.3", "Coq proof (rest-independence of prefix consumers) + model/implementation correspondence + consumption counters"),
+    "C05": ("Theorems (the guards between boundary values and a crash, on the model the other properties tie to the code): machine-integer "
+            "results of + - * % negation and length always lie in the range of isize (otherwise big integers); an accepted index lies inside "
+            "the sequence; the byte offset of a character position is a chunk boundary inside the string and string slices lie inside the "
+            "string; chunks partition every byte string. Search (debug build: overflow, bounds and assertions panic): ~1500/20000 mutated and "
+            "random filter texts through load+compile with diagnostics rendered and spans checked, accepted mutants run; every native, every "
+            "definition of the three defs.jq and 70 operator forms (330 callables discovered from the current tree) on ~1.7 million tuples "
+            "over a boundary pool (exhaustive up to two value arguments, sampled above, closure arguments from a pool), with hang and abort "
+            "attribution per tuple; ~1900/30000 mutated documents over nine formats through both reader entry points and the binary with "
+            "every output format. Partial: a total model cannot exhibit a panic, the search is a test; allocation failures, capacity overflow "
+            "and stack overflow are excepted as the property says.",
+            "7.5", "Coq proof (range, bounds and boundary guards) + crash search over filter texts, native x boundary tuples and documents"),
     "C07": ("Theorems: for all 256 bytes and both string kinds the reader undoes the writer's escape in one step; whole text strings "
             "and byte strings of arbitrary bytes (control characters, quotes, DEL, invalid UTF-8) survive print-then-parse. "
             "Correspondence: tojson, tojson|fromjson on exhaustive short strings, floats (edge + random bit patterns), integers of any "
